@@ -16,7 +16,8 @@
 // Build-time selection (one source, many units so that the instantiations compile in parallel and a cell that does not
 // compile on some tree only costs its own unit):
 //   -DC12_FROM_LO=a -DC12_FROM_HI=b   From-period indices of this unit (all 10 To periods)
-//   -DC12_REPSET=0..3                 0: i64/i64   1: i32/i32   2: i32->i64, i64->i32   3: f64/f64, i64->f64, f64->i64
+//   -DC12_REPSET=0..5                 0: i64/i64   1: i32/i32   2: i32->i64, i64->i32   3: f64/f64, i64->f64, f64->i64
+//                                     4: u32/u32, u64->i64, u16/u16   5: i64->u64, i32->u32, u32->i64, u16->i32
 //   -DC12_X=1                         only the nano x ratio<5,7> cells (need etl::lcm without the m*n overflow), all repsets
 #include "vf.hpp"
 #include "vf_contract.hpp"
@@ -52,6 +53,9 @@ using i128   = __int128;
 using i32    = std::int32_t;
 using i64    = std::int64_t;
 using f64    = double;
+using u16    = std::uint16_t;
+using u32    = std::uint32_t;
+using u64    = std::uint64_t;
 
 // ------------------------------------------------------------------ periods of the property
 template <int I> struct Per;
@@ -72,6 +76,9 @@ template <typename R> struct RepName;
 template <> struct RepName<i32> { static constexpr char const* s = "i32"; };
 template <> struct RepName<i64> { static constexpr char const* s = "i64"; };
 template <> struct RepName<f64> { static constexpr char const* s = "f64"; };
+template <> struct RepName<u16> { static constexpr char const* s = "u16"; };
+template <> struct RepName<u32> { static constexpr char const* s = "u32"; };
+template <> struct RepName<u64> { static constexpr char const* s = "u64"; };
 
 constexpr i128 gcd128(i128 a, i128 b)
 {
@@ -109,7 +116,13 @@ struct Lim {
     int digits;
     bool has(i128 x) const { return x >= lo && x <= hi; }
 };
-template <typename R> constexpr Lim lim_of() { return Lim{(i128)std::numeric_limits<R>::min(), (i128)std::numeric_limits<R>::max(), std::numeric_limits<R>::digits}; }
+// counts travel through the type-erased tables as long long, so a u64 representation is exercised on [0, 2^63-1]
+template <typename R> constexpr Lim lim_of()
+{
+    i128 const hi = (i128)std::numeric_limits<R>::max();
+    i128 const cap = (i128)std::numeric_limits<i64>::max();
+    return Lim{(i128)std::numeric_limits<R>::min(), hi > cap ? cap : hi, std::numeric_limits<R>::digits > 63 ? 63 : std::numeric_limits<R>::digits};
+}
 constexpr Lim kL64 = Lim{(i128)std::numeric_limits<i64>::min(), (i128)std::numeric_limits<i64>::max(), 63};
 
 constexpr i128 iabs(i128 a) { return a < 0 ? -a : a; }
@@ -178,7 +191,14 @@ template <typename L, typename F, typename T> long long u_implicit(long long c)
     }
 }
 template <typename L, typename F, typename T> long long u_common(long long c) { return typename L::template common<F, T>(F{(REPF)c}).count(); }
-template <typename L, typename F, typename T> long long u_abs(long long c) { return L::abs(F{(REPF)c}).count(); }
+template <typename L, typename F, typename T> long long u_abs(long long c)
+{
+    if constexpr (std::is_signed_v<REPF>) { // chrono::abs only participates for signed representations
+        return L::abs(F{(REPF)c}).count();
+    } else {
+        return c;
+    }
+}
 template <typename L, typename F, typename T> long long u_neg(long long c) { return (-F{(REPF)c}).count(); }
 template <typename L, typename F, typename T> long long u_pos(long long c) { return (+F{(REPF)c}).count(); }
 template <typename L, typename F, typename T> long long u_preinc(long long c) { F d{(REPF)c}; F& r = ++d; return &r == &d ? d.count() : d.count() + 1000003; }
@@ -285,6 +305,7 @@ struct IntDesc {
     char subj[96];
     Fac F;
     Lim l1, l2, lc; // From rep, To rep, common rep
+    Lim lcr;        // the computation type of duration_cast: common_type<ToRep, FromRep, intmax_t> (unsigned when a u64 is involved)
     bool implicit;  // From -> To is a lossless implicit conversion (both libraries agree on that, see type facts)
     Fn1 ue[U_N], us[U_N];
     Fn2 ke[K_N], ks[K_N], be[B_N], bs[B_N], ce[C_N], cs[C_N];
@@ -322,6 +343,7 @@ IntDesc const& int_desc()
         x.l1       = lim_of<R1>();
         x.l2       = lim_of<R2>();
         x.lc       = lim_of<CRep>();
+        x.lcr      = lim_of<std::common_type_t<R2, R1, std::intmax_t>>();
         x.implicit = std::is_convertible_v<SF, ST> && etl::is_convertible_v<EF, ET>;
 #define BOTH(ARR, IDX, FN)                                                                                             \
     x.ARR##e[IDX] = &FN<EL, EF, ET>;                                                                                   \
@@ -553,7 +575,7 @@ struct IntCell {
     IntCell(IntDesc const& d, Ctx& cx) : D(d), c(cx), F(d.F) { }
 
     // the standard's formulation: CR = common_type<ToRep, FromRep, intmax_t> = 64 bit; num==1: c/den ; den==1: c*num ; else c*num/den
-    bool cast_ok(i128 cc) const { return kL64.has(cc * F.fn) && D.l2.has(cc * F.fn / F.fd); }
+    bool cast_ok(i128 cc) const { return D.lcr.has(cc) && D.lcr.has(cc * F.fn) && kL64.has(cc * F.fn) && D.l2.has(cc * F.fn / F.fd); }
     bool common_ok1(i128 cc) const { return kL64.has(cc * F.f1) && D.lc.has(cc * F.f1); }
     bool common_ok2(i128 cc) const { return kL64.has(cc * F.f2) && D.lc.has(cc * F.f2); }
 
@@ -610,8 +632,8 @@ struct IntCell {
             if (D.implicit) { u(U_IMPLICIT, sit, args, argh, num, x); } // lossless: fd == 1
         }
         if (common_ok1(cc)) { u(U_COMMON, sit0, args, argh, cc * F.f1, x); }
-        if (cc != D.l1.lo) {
-            u(U_ABS, sit0, args, argh, iabs(cc), x);
+        if (D.l1.has(-cc)) { // signed: everything but the minimum; unsigned: only zero (negation would wrap)
+            if (D.l1.lo < 0) { u(U_ABS, sit0, args, argh, iabs(cc), x); }
             u(U_NEG, sit0, args, argh, -cc, x);
         }
         u(U_POS, sit0, args, argh, cc, x);
@@ -1098,10 +1120,19 @@ void add_cells()
     } else if constexpr (RS == 2) {
         cells().push_back(&run_int_cell<i32, I1, i64, I2>);
         cells().push_back(&run_int_cell<i64, I1, i32, I2>);
-    } else {
+    } else if constexpr (RS == 3) {
         cells().push_back(&run_tofloat_cell<f64, I1, I2>);
         cells().push_back(&run_tofloat_cell<i64, I1, I2>);
         cells().push_back(&run_fromfloat_cell<I1, I2>);
+    } else if constexpr (RS == 4) { // unsigned tick types: common type unsigned (u32, u16 via int promotion, u64 with i64)
+        cells().push_back(&run_int_cell<u32, I1, u32, I2>);
+        cells().push_back(&run_int_cell<u64, I1, i64, I2>);
+        cells().push_back(&run_int_cell<u16, I1, u16, I2>);
+    } else { // RS == 5: mixed signed/unsigned source and target
+        cells().push_back(&run_int_cell<i64, I1, u64, I2>);
+        cells().push_back(&run_int_cell<i32, I1, u32, I2>);
+        cells().push_back(&run_int_cell<u32, I1, i64, I2>);
+        cells().push_back(&run_int_cell<u16, I1, i32, I2>);
     }
 }
 template <int RS, int I1, int I2>
@@ -1127,6 +1158,8 @@ void build_cells()
     add_rows<1>(std::make_integer_sequence<int, 10>{});
     add_rows<2>(std::make_integer_sequence<int, 10>{});
     add_rows<3>(std::make_integer_sequence<int, 10>{});
+    add_rows<4>(std::make_integer_sequence<int, 10>{});
+    add_rows<5>(std::make_integer_sequence<int, 10>{});
 #else
     add_rows<C12_REPSET>(std::make_integer_sequence<int, 10>{});
 #endif
